@@ -1510,14 +1510,21 @@ func (t *Tokenizer) readPunctuation() (models.Token, error) {
 
 			// Check for parameter syntax (@variable)
 			if isIdentifierStart(nextR) {
-				// This is a parameter like @variable, read the identifier part
-				identToken, err := t.readIdentifier()
-				if err != nil {
-					return models.Token{}, err
+				// This is a parameter like @variable: its name is the run of identifier
+				// characters that follows. (Keyword and two-word keyword recognition do
+				// not apply to a parameter name: "@left join" is @left followed by join.)
+				nameStart := t.pos.Index
+				t.pos.AdvanceRune(nextR, nextSize)
+				for t.pos.Index < len(t.input) {
+					cr, cs := utf8.DecodeRune(t.input[t.pos.Index:])
+					if !isIdentifierChar(cr) {
+						break
+					}
+					t.pos.AdvanceRune(cr, cs)
 				}
 				return models.Token{
 					Type:  models.TokenTypePlaceholder,
-					Value: "@" + identToken.Value,
+					Value: "@" + string(t.input[nameStart:t.pos.Index]),
 				}, nil
 			}
 		}
